@@ -6,10 +6,10 @@ Import ListNotations.
 
 Definition rep (n : nat) (l : label) := repeat l n.
 
-Lemma stuck_run : forall fixed limit st, (forall t, step fixed limit st t = None) ->
-  forall ts, run fixed limit (map LT ts) st = st.
+Lemma stuck_run : forall fixed safe limit st, (forall t, step fixed safe limit st t = None) ->
+  forall ts, run fixed safe limit (map LT ts) st = st.
 Proof.
-  intros fixed limit st Hs. induction ts as [|t ts IH]; simpl; auto.
+  intros fixed safe limit st Hs. induction ts as [|t ts IH]; simpl; auto.
   unfold next. simpl. rewrite Hs. exact IH.
 Qed.
 
@@ -25,20 +25,20 @@ Definition cw_progs : list (list op) :=
   [[OWith 0 false OK; OWith 1 false OK; OCommit false];
    [OWith 1 false OK; OWith 0 false OK; OCommit false]].
 Definition cw_sched : list label := rep 6 (LT 0) ++ rep 6 (LT 1) ++ [LT 0; LT 1].
-Definition cw_st : state := Eval vm_compute in run true (-1) cw_sched (init cw_progs).
-Lemma cw_st_eq : cw_st = run true (-1) cw_sched (init cw_progs).
+Definition cw_st : state := Eval vm_compute in run true true (-1) cw_sched (init cw_progs).
+Lemma cw_st_eq : cw_st = run true true (-1) cw_sched (init cw_progs).
 Proof. vm_compute. reflexivity. Qed.
-Lemma cw_stuck : forall t, step true (-1) cw_st t = None.
+Lemma cw_stuck : forall t, step true true (-1) cw_st t = None.
 Proof.
   intros [|[|t]]; [vm_compute; reflexivity|vm_compute; reflexivity|].
   unfold step, cw_st. simpl. destruct t; reflexivity.
 Qed.
 
 Lemma thm_cross_writers : exists progs ls,
-  let st := run true (-1) ls (init progs) in
+  let st := run true true (-1) ls (init progs) in
   Forall wf_prog progs /\
-  (forall t, step true (-1) st t = None) /\
-  (forall ts, run true (-1) (map LT ts) st = st) /\
+  (forall t, step true true (-1) st t = None) /\
+  (forall ts, run true true (-1) (map LT ts) st = st) /\
   ~ finished (txs st 0) /\ ~ finished (txs st 1) /\
   done (txs st 0) = false /\ done (txs st 1) = false /\
   ~ disjoint_writers st.
@@ -63,28 +63,28 @@ Qed.
 Definition pc_progs : list (list op) :=
   [[OWith 0 false OK; OCommit false; OWith 1 false OK]; [OWith 1 false OK; OCommit false]].
 Definition pc_sched : list label := rep 6 (LT 0) ++ [LT 0] ++ rep 6 (LT 0) ++ [LT 1; LT 1].
-Definition pc_st : state := Eval vm_compute in run false (-1) pc_sched (init pc_progs).
-Lemma pc_st_eq : pc_st = run false (-1) pc_sched (init pc_progs).
+Definition pc_st : state := Eval vm_compute in run false false (-1) pc_sched (init pc_progs).
+Lemma pc_st_eq : pc_st = run false false (-1) pc_sched (init pc_progs).
 Proof. vm_compute. reflexivity. Qed.
-Lemma pc_stuck : forall t, step false (-1) pc_st t = None.
+Lemma pc_stuck : forall t, step false false (-1) pc_st t = None.
 Proof.
   intros [|[|t]]; [vm_compute; reflexivity|vm_compute; reflexivity|].
   unfold step, pc_st. simpl. destruct t; reflexivity.
 Qed.
 
-Definition pc_st' : state := Eval vm_compute in run true (-1) (pc_sched ++ rep 8 (LT 1)) (init pc_progs).
-Lemma pc_st'_eq : pc_st' = run true (-1) (pc_sched ++ rep 8 (LT 1)) (init pc_progs).
+Definition pc_st' : state := Eval vm_compute in run true true (-1) (pc_sched ++ rep 8 (LT 1)) (init pc_progs).
+Lemma pc_st'_eq : pc_st' = run true true (-1) (pc_sched ++ rep 8 (LT 1)) (init pc_progs).
 Proof. vm_compute. reflexivity. Qed.
 
 Lemma thm_post_commit_v0 : exists progs ls st st',
-  st = run false (-1) ls (init progs) /\
+  st = run false false (-1) ls (init progs) /\
   finished (txs st 0) /\ done (txs st 0) = true /\
   (exists n e, lookup n (mmap st) = Some e /\ e_writer (elems st e) = Some 0) /\
   ~ finished (txs st 1) /\
-  (forall t, step false (-1) st t = None) /\
-  (forall ts, run false (-1) (map LT ts) st = st) /\
+  (forall t, step false false (-1) st t = None) /\
+  (forall ts, run false false (-1) (map LT ts) st = st) /\
   (* the current version on the same programs: everything finishes, locks released *)
-  st' = run true (-1) (ls ++ rep 8 (LT 1)) (init progs) /\
+  st' = run true true (-1) (ls ++ rep 8 (LT 1)) (init progs) /\
   finished (txs st' 0) /\ finished (txs st' 1) /\ locks_released st'.
 Proof.
   exists pc_progs, pc_sched, pc_st, pc_st'.
@@ -118,7 +118,7 @@ Definition ev_sched : list label :=
   rep 3 (LT 0) ++ [LDel 0] ++ rep 7 (LT 1) ++ rep 4 (LT 0) ++ rep 4 (LT 2).
 
 Lemma thm_evict_not_harmless : exists progs ls,
-  let st := run true (-1) ls (init progs) in
+  let st := run false false (-1) ls (init progs) in
   Forall wf_prog progs /\
   done (txs st 0) = true /\ failed (txs st 0) = false /\        (* W committed successfully *)
   (exists e, lookup 0 (mmap st) = Some e /\ in_cb st 2 e /\
@@ -137,13 +137,13 @@ Proof.
   split; [vm_compute; reflexivity|].
   split; [vm_compute; reflexivity|].
   intros Co. specialize (Co 0 1). 
-  assert (H : e_built (elems (run true (-1) ev_sched (init ev_progs)) 1) = committed (run true (-1) ev_sched (init ev_progs)) 0).
+  assert (H : e_built (elems (run false false (-1) ev_sched (init ev_progs)) 1) = committed (run false false (-1) ev_sched (init ev_progs)) 0).
   { apply Co; vm_compute; reflexivity. }
   vm_compute in H. discriminate.
 Qed.
 
 (* the run of the witness is not clean: the Release removes a write-locked entry *)
-Lemma ev_not_clean : ~ clean true (-1) ev_sched (init ev_progs).
+Lemma ev_not_clean : ~ clean false false (-1) ev_sched (init ev_progs).
 Proof.
   unfold ev_sched. simpl. intros (_ & _ & _ & ([Kp _] & _)).
   specialize (Kp 0 0). 
@@ -167,7 +167,7 @@ Definition ex_sched : list label :=
   rep 3 (LT 0) ++ rep 4 (LT 0) ++ rep 3 (LT 1) ++ [LT 0] ++ rep 3 (LT 2) ++ rep 3 (LT 1) ++ rep 4 (LT 1).
 
 Lemma thm_exclusion_needs_clean : exists progs ls,
-  let st := run true (-1) ls (init progs) in
+  let st := run false false (-1) ls (init progs) in
   Forall wf_prog progs /\ (forall l, In l ls -> exists t, l = LT t) /\
   (exists t t' e, t <> t' /\ in_cb_writing st t e /\ in_cb st t' e) /\ ~ excl st.
 Proof.
@@ -176,9 +176,9 @@ Proof.
   split.
   { intros l Hin. unfold ex_sched, rep in Hin. simpl in Hin.
     repeat (destruct Hin as [<-|Hin]; [eauto|]). destruct Hin. }
-  assert (W : in_cb_writing (run true (-1) ex_sched (init ex_progs)) 1 2).
+  assert (W : in_cb_writing (run false false (-1) ex_sched (init ex_progs)) 1 2).
   { eexists _, _. split; [vm_compute; reflexivity|]. split; reflexivity. }
-  assert (R : in_cb (run true (-1) ex_sched (init ex_progs)) 2 2).
+  assert (R : in_cb (run false false (-1) ex_sched (init ex_progs)) 2 2).
   { eexists _, _. split; [vm_compute; reflexivity|reflexivity]. }
   split; [exists 1, 2, 2; split; [discriminate|auto]|].
   intros (_ & _ & X & _). specialize (X 1 2 2 W R). discriminate.
@@ -193,15 +193,15 @@ Definition sr_progs : list (list op) :=
   [[OWith 0 true OK; OCommit false]; [OWith 0 true OK; OCommit false]; [OWith 0 true CbFail; OCommit true]].
 Definition sr_sched : list label := rep 8 (LT 0) ++ rep 3 (LT 1) ++ rep 5 (LT 2).
 
-Definition sr_st : state := Eval vm_compute in run true (-1) sr_sched (init sr_progs).
-Definition sr_st' : state := Eval vm_compute in run true (-1) (sr_sched ++ [LT 1]) (init sr_progs).
-Lemma sr_st_eq : sr_st = run true (-1) sr_sched (init sr_progs).
+Definition sr_st : state := Eval vm_compute in run true true (-1) sr_sched (init sr_progs).
+Definition sr_st' : state := Eval vm_compute in run true true (-1) (sr_sched ++ [LT 1]) (init sr_progs).
+Lemma sr_st_eq : sr_st = run true true (-1) sr_sched (init sr_progs).
 Proof. vm_compute. reflexivity. Qed.
 
 Lemma thm_scrapped_check_race : exists progs ls w c st st',
-  st = run true (-1) ls (init progs) /\
+  st = run true true (-1) ls (init progs) /\
   ph (txs st 1) = PReady w c /\ e_scrapped (elems st (c_e c)) = true /\
-  step true (-1) st 1 = Some st' /\ in_cb st' 1 (c_e c) /\
+  step true true (-1) st 1 = Some st' /\ in_cb st' 1 (c_e c) /\
   w_ro w = true /\ c_rl c = Some (c_e c).
 Proof.
   exists sr_progs, sr_sched, (mkW 0 true OK), (mkC 0 true (Some 0) true), sr_st, sr_st'.
@@ -212,3 +212,38 @@ Proof.
   split; [eexists _, _; split; vm_compute; reflexivity|].
   split; reflexivity.
 Qed.
+
+(* ------------------------------------------------------------------ *)
+(* 6. before the repair (fixed = true, safe = false): a READ access that
+      arrives after the Commit of its own transaction finds the name in the
+      transaction's written caches and uses the shared element without any
+      lock -- here while another transaction writes it. *)
+Definition lr_progs : list (list op) :=
+  [[OWith 0 false OK; OCommit false; OWith 0 true OK]; [OWith 0 false OK; OCommit false]].
+Definition lr_sched : list label := rep 6 (LT 0) ++ [LT 0] ++ rep 5 (LT 1) ++ rep 4 (LT 0).
+
+Lemma thm_late_reader_v1 : exists progs ls,
+  let st := run true false (-1) ls (init progs) in
+  done (txs st 0) = true /\ in_cb st 0 0 /\ in_cb_writing st 1 0 /\ holds_write st 1 0 /\ ~ excl st.
+Proof.
+  exists lr_progs, lr_sched. cbv zeta.
+  assert (R : in_cb (run true false (-1) lr_sched (init lr_progs)) 0 0).
+  { eexists _, _. split; [vm_compute; reflexivity|reflexivity]. }
+  assert (W : in_cb_writing (run true false (-1) lr_sched (init lr_progs)) 1 0).
+  { eexists _, _. split; [vm_compute; reflexivity|]. split; reflexivity. }
+  split; [vm_compute; reflexivity|]. split; [exact R|]. split; [exact W|].
+  split; [split; vm_compute; reflexivity|].
+  intros (_ & _ & X & _). specialize (X 1 0 0 W R). discriminate.
+Qed.
+
+(* ------------------------------------------------------------------ *)
+(* 7. the repaired manager on the schedules of 3, 4 and 6 *)
+Lemma thm_repaired_on_witnesses :
+  (let st := run true true (-1) ev_sched (init ev_progs) in
+   coherentb st = true /\ stale_cb st 2 = false /\ mmap st = [(0, 2)] /\ committed st 0 = 1 /\
+   e_built (elems st 2) = 1 /\ e_scrapped (elems st 1) = true) /\
+  (let st := run true true (-1) ex_sched (init ex_progs) in
+   mmap st = [(0, 1)] /\ ph (txs st 2) = PIn (mkW 0 true OK) (mkC 2 false None true)) /\
+  (let st := run true true (-1) lr_sched (init lr_progs) in
+   holds_write st 1 0 /\ ph (txs st 0) = PRet false None false true).
+Proof. vm_compute. repeat split; reflexivity. Qed.
